@@ -29,7 +29,14 @@ RULE = ("Hypothesis-drawn stacks of 1-6 layers (index in [1,4] and, for the stac
         "compared with a copy taken before (bucket ...:argument-modified); kept batched results are re-checked after a later call "
         "(...:result-overwritten).  Float32 stacks in the energy clause go up to f = 0.995 only (the library forms n0/n_j in "
         "float32, so an angle within 1e-6 of the critical angle is beyond it for the library).  Non-trivial = oblique incidence (f > 0.02) "
-        "and, for stack clauses, at least one layer of non-zero thickness in front of the exit medium.")
+        "and, for stack clauses, at least one layer of non-zero thickness in front of the exit medium.  Round-7 hardening, clause batch_large: "
+        "maps with just more than 2**15 / 2**16 / 3 * 2**15 (thorough: 2**17, 5 * 2**15) elements per layer, never a multiple of 2**15, as 1-D "
+        "sweeps and thin 2-D / 3-D shapes (1, 2, 3, 5, 7, 181 rows), 1-3 layers, real or absorbing, as (L,2,*B) arrays (C / Fortran) or lists / "
+        "tuples of (index map, thickness map), with an immersed stack (ambient index > 1 in 5 of 6), oblique incidence (5 of 6) and either "
+        "polarisation through every calling convention; the per-element loop is run on a sample of elements (both ends, both sides of every "
+        "multiple of 2**15, a strided sweep of 24 with a drawn offset; about 35 elements) and R + T (admittance factor of the exit medium, "
+        "harness arithmetic) is checked on EVERY element: == 1 for lossless maps, <= 1 for absorbing ones; non-trivial there = not a multiple of "
+        "2**15 and (immersed or oblique).")
 ASSUMPTIONS = ["the last entry of a stack is the exit medium (its own thickness only adds a phase to t), as in the code and its tests",
                "an absorbing index is written n + i*kappa (the sign used by tests/test_thinfilm.py); absorbing layers are interior only",
                "numpy trigonometric functions are correct to a few ulp",
@@ -678,9 +685,114 @@ def check_batch(case, ctx):
     U.check_equal(np.asarray(t), keep_t, 'batch:result-overwritten', 't of the first batched call changed after a later call (%s)' % desc)
 
 
+# ---- batches that cross internal block / threshold sizes --------------------------------------------
+BIG_BASES = {'quick': [2 ** 15, 2 ** 15, 2 ** 16, 2 ** 16, 3 * 2 ** 15], 'thorough': [2 ** 15, 2 ** 16, 3 * 2 ** 15, 2 ** 17, 5 * 2 ** 15]}
+
+
+def strat_batch_large(tier):
+    """maps with just more than 2**15 / 2**16 / 3 * 2**15 ... elements (never a multiple of 2**15), thin shapes, few layers, and every option of
+    the call non-default: immersed stack (ambient index > 1), oblique incidence, either polarisation"""
+    return st.fixed_dictionaries({
+        'base': st.sampled_from(BIG_BASES[tier]), 'extra': st.one_of(st.integers(1, 40), st.integers(1, 3000)),
+        'rows': st.sampled_from([0, 0, 1, 2, 3, 5, 7, 181]),      # 0: a 1-D sweep; else (rows, cols), also as (cols, rows) and (rows, 1, cols)
+        'orient': st.sampled_from(['rc', 'cr', 'r1c']),
+        'L': st.integers(1, 3), 'seed': U.seeds, 'wvl': U.nice_float(0.3, 2.0), 'n0': st.one_of(st.sampled_from([1.33, 1.5, 2.25]), U.nice_float(1.05, 2.0), st.just(1.0), U.nice_float(1.05, 2.0), U.nice_float(1.05, 2.0), U.nice_float(1.2, 2.0)),
+        'f': st.one_of(st.sampled_from([0.5, 0.9, 0.2]), U.nice_float(0.05, FMAX), st.just(0.0), U.nice_float(0.05, FMAX), U.nice_float(0.3, FMAX), U.nice_float(0.3, FMAX)), 'pol': POL,
+        'vary': st.sampled_from(['both', 'both', 'thickness', 'index']),
+        'absorbing': st.sampled_from([False, False, True]), 'special': st.sampled_from(SPECIALS),
+        'form': st.sampled_from(['array', 'array', 'array-F', 'pairs-lists', 'pairs-tuples']), 'argt': ARGT})
+
+
+def big_shape(case):
+    total = case['base'] + case['extra']
+    rows = case['rows']
+    if rows == 0:
+        return (total,)
+    cols = total // rows + 1
+    return {'rc': (rows, cols), 'cr': (cols, rows), 'r1c': (rows, 1, cols)}[case['orient']]
+
+
+def check_batch_large(case, ctx):
+    """a batched stack with more than 2**15 / 2**16 elements: a sample of its elements (both ends, both sides of every multiple of 2**15,
+    a strided sweep) equals the per-element loop, and every element of a lossless map conserves energy (absorbing: R + T <= 1)."""
+    from prysm import thinfilm as tf
+    B = big_shape(case)
+    N = int(np.prod(B))
+    L, wvl, n0, f, pol, form, argt = case['L'], case['wvl'], case['n0'], case['f'], case['pol'], case['form'], case['argt']
+    n, d = _batch_maps(dict(case, bshape=list(B), num='float'))
+    th0 = _theta0(n0, float(n.min()), f)
+    aoi = math.degrees(th0)
+    cplx = case['absorbing'] and L > 1
+    if cplx:
+        rng = U.rng_of(case['seed'], 19)
+        interior = (np.arange(L) < L - 1).reshape((L,) + (1,) * len(B))
+        n = n + 1j * rng.uniform(0, 1, (L,) + B) * interior
+    dd = d.astype(n.dtype) if cplx else d
+    if form.startswith('array'):
+        stack = U.relayout(np.stack([n, dd], axis=1), {'array': 'C', 'array-F': 'F'}[form])
+    elif form == 'pairs-lists':
+        stack = [[n[k].copy(), dd[k].copy()] for k in range(L)]
+    else:
+        stack = tuple((n[k].copy(), dd[k].copy()) for k in range(L))
+    ctx.nt(N % 2 ** 15 != 0 and (n0 != 1 or f > 0.02))
+    ctx.label('elements:%d*2^15+' % (N // 2 ** 15), 'ndim=%d' % len(B), 'L=%d' % L, 'pol:' + pol, 'complex' if cplx else 'real', 'normal' if f == 0 else 'oblique',
+              'n0=1' if n0 == 1 else 'n0>1', 'form:' + form, 'call:' + argt['call'], 'special:' + case['special'], 'vary:' + case['vary'],
+              'all-options-non-default' if (n0 != 1 and f > 0.02) else 'some-option-default')
+    desc = 'stack shape %s (%d elements per layer, %s, %s) aoi=%r n0=%r wvl=%r pol=%s' % (np.asarray(stack).shape, N, form, np.asarray(stack).dtype, aoi, n0, wvl, pol)
+    snap = None if form.startswith('array') else _snapshot(stack)
+    keep = np.array(stack, copy=True) if form.startswith('array') else None
+    r, t = _call_rt(ctx, stack, wvl, pol, aoi, n0, argt)
+    if keep is not None:
+        ctx.require(np.array_equal(np.asarray(stack), keep), 'stack_rt:argument-modified', 'the stack array was modified by the call (%s)' % desc)
+    else:
+        _untouched(ctx, stack, snap, 'stack_rt', 'the stack (%s)' % desc)
+    U.check_shape(r, B, 'batch:large:r')
+    U.check_shape(t, B, 'batch:large:t')
+    r, t = np.asarray(r), np.asarray(t)
+    ctx.require(bool(np.all(np.isfinite(r))) and bool(np.all(np.isfinite(t))), 'batch:large:nonfinite',
+                '%d of %d elements of r / t are not finite (%s)' % (int(np.sum(~(np.isfinite(r) & np.isfinite(t)))), N, desc))
+    # the sample: both ends, both sides of every multiple of 2**15, and a strided sweep with a drawn offset
+    pick = {0, 1, N - 2, N - 1}
+    for b in range(2 ** 15, N, 2 ** 15):
+        pick |= {b - 1, b, b + 1}
+    step = max(1, N // 24)
+    pick |= set(range(case['seed'] % step, N, step))
+    pick = sorted(k for k in pick if 0 <= k < N)
+    nf, df = n.reshape(L, N), d.reshape(L, N)
+    rl = np.empty(len(pick), complex)
+    tl = np.empty(len(pick), complex)
+    for j, k in enumerate(pick):
+        one = [(complex(nf[i, k]) if cplx else float(nf[i, k]), float(df[i, k])) for i in range(L)]
+        a, b_ = ctx.call(tf.multilayer_stack_rt, one, wvl, pol, aoi, n0)
+        rl[j], tl[j] = complex(a), complex(b_)
+    ctx.tally('elements-compared-with-the-loop', len(pick))
+    rt_ = 1e-11
+    U.check_close(r.reshape(N)[pick], rl, rt_, 'batch:large:%s:r' % pol, 'batched r vs loop at flat indices %s.., %s' % (pick[:8], desc), atol=rt_ * 0.01)
+    U.check_close(t.reshape(N)[pick], tl, rt_, 'batch:large:%s:t' % pol, 'batched t vs loop at flat indices %s.., %s' % (pick[:8], desc), atol=rt_ * 0.01)
+    # energy, every element (harness arithmetic)
+    ns = np.real(n[-1])
+    s0 = n0 * math.sin(th0)
+    cs = np.sqrt(np.maximum(0.0, 1.0 - (s0 / ns) ** 2))
+    Rb = np.abs(r) ** 2
+    Tb = np.abs(t) ** 2 * ns * cs / (n0 * math.cos(th0))
+    lossless = np.real(n[np.imag(n) == 0]) if cplx else n
+    cmin = max(min(math.cos(th0), float(np.sqrt(max(0.0, 1.0 - (s0 / float(lossless.min())) ** 2)))), 1e-150)
+    tole = _energy_tol(cmin)
+    e = Rb + Tb - 1
+    if cplx:
+        bad = ~(e <= tole)
+    else:
+        bad = ~(np.abs(e) <= tole)
+    if bad.any():
+        k = int(np.flatnonzero(bad.reshape(N))[0])
+        ctx.fail('batch:large:energy:%s:%s' % (pol, 'absorbing-gain' if cplx else 'lossless'),
+                 '%d of %d elements: R + T - 1 = %.3g at flat index %d (first), max |.| %.3g, tol %.3g; %s' % (int(bad.sum()), N, float(e.reshape(N)[k]), k, float(np.nanmax(np.abs(e))), tole, desc))
+
+
 CLAUSES = [
     HypClause('energy', strat_energy, check_energy, examples={'quick': 1500, 'thorough': 8000}, shards={'quick': 2, 'thorough': 8}),
     HypClause('fresnel', strat_fresnel, check_fresnel, examples={'quick': 1200, 'thorough': 6000}, shards={'quick': 2, 'thorough': 8}),
     HypClause('absentee', strat_absentee, check_absentee, examples={'quick': 1000, 'thorough': 5000}, shards={'quick': 2, 'thorough': 8}),
     HypClause('batch', strat_batch, check_batch, examples={'quick': 400, 'thorough': 1500}, shards={'quick': 2, 'thorough': 8}),
+    HypClause('batch_large', strat_batch_large, check_batch_large, examples={'quick': 40, 'thorough': 300}, shards={'quick': 4, 'thorough': 10}),
 ]
